@@ -6,7 +6,6 @@ porepy.utils.txt_io.{TxtData, export_data_to_txt, read_data_from_txt}.
 Lean model: lean/PorepyVerif/C47/Model.lean (record layer, abstract token codec).
 """
 import math
-import os
 import re
 import tempfile
 import warnings
@@ -29,7 +28,7 @@ THEOREMS = [
 LEAN_MODULES = ["PorepyVerif.C47.Props"]
 AUDIT = "PorepyVerif/C47/Audit.lean"
 DRIVER = "PorepyVerif/C47/Driver.lean"
-N = {"quick": 300, "thorough": 5000}
+N = {"quick": 300, "thorough": 12000}
 
 KEY_RTOL = "csv2d-endpoint-merged-by-default-rtol"
 KEY_TXT_1COL = "txt-single-column-collapses-to-first-value"
@@ -82,10 +81,6 @@ DEFAULT_FMT = "%2.2e"
 
 
 # ------------------------------------------------------------------------------------------------ helpers
-def F(x):
-    return Fraction(x)
-
-
 def fl(s):
     return float(Fraction(s))
 
@@ -164,7 +159,6 @@ def _degenerate_margin(a, b):
 def _gen_pool(rng, tol, flavour, style, npts):
     pool = []
     tries = 0
-    sep = {"dyadic": 0.0, "generic": 0.0, "utm": 0.0}[style]
     while len(pool) < npts and tries < 200:
         tries += 1
         p = (_num_style(rng, style), _num_style(rng, style))
